@@ -33,7 +33,7 @@ SPEC = {
     "assumptions": ["an independent 25-line Base64-VLQ decoder for the Revision-3 'mappings' string", "vlib/tealgrammar.py tokenizer (comment removal)"],
     "min_evaluations": {"quick": 300, "thorough": 3000},
     "must_reach": ["teal_identical_3way", "markers_attributed", "keys_ok", "entries_point_into_files", "json_roundtrip_ok", "independent_vlq_ok", "annotated_ok",
-                   "multi_module", "large_delta", "router_trees", "synthetic_maps_ok"],
+                   "multi_module", "large_delta", "router_trees", "synthetic_maps_ok", "assembled_trees", "repeated_constants_checked"],
     "shard_timeout": {"quick": 900, "thorough": 7200},
 }
 
@@ -80,6 +80,42 @@ def decode_mappings(j):
     return res
 
 
+def constant_sites(teal):
+    """[(0-based TEAL line index, value pushed)] for int/pushint/intc*/byte/pushbytes/bytec*/addr-free constant loads."""
+    from .. import tealgrammar as G
+    try:
+        prog = G.parse_any(teal)
+    except G.ParseError:
+        return []
+    intc, bytec, out = [], [], []
+    for I in prog.instrs:
+        op, a = I.op, I.args
+        try:
+            if op == "intcblock":
+                intc = [G.parse_int(x) for x in a]
+            elif op == "bytecblock":
+                bytec, rest = [], list(a)
+                while rest:
+                    b, n = G.parse_bytes_args(rest)
+                    bytec.append(b)
+                    rest = rest[n:]
+            elif op in ("int", "pushint"):
+                out.append((I.line - 1, G.parse_int(a[0])))
+            elif op == "intc":
+                out.append((I.line - 1, intc[int(a[0])]))
+            elif op.startswith("intc_"):
+                out.append((I.line - 1, intc[int(op[5:])]))
+            elif op in ("byte", "pushbytes"):
+                out.append((I.line - 1, G.parse_bytes_args(a)[0]))
+            elif op == "bytec":
+                out.append((I.line - 1, bytec[int(a[0])]))
+            elif op.startswith("bytec_"):
+                out.append((I.line - 1, bytec[int(op[6:])]))
+        except (G.ParseError, IndexError, ValueError):
+            continue
+    return out
+
+
 # ------------------------------------------------------------------------------------------------ one source tree
 def check_tree(pt, acc, desc, directory, off_teal, rng):
     import importlib
@@ -88,7 +124,7 @@ def check_tree(pt, acc, desc, directory, off_teal, rng):
     from ..common import PT_ERRORS, h, reset_globals
     reset_globals()
     acc.evaluations += 1
-    case = {"tree": {k: desc[k] for k in ("main", "entry", "version", "nlines")}, "sources": [open(p).read() for p in desc["files"]]}
+    case = {"tree": {k: desc.get(k) for k in ("main", "entry", "version", "nlines", "repeats", "assemble")}, "sources": [open(p).read() for p in desc["files"]]}
     try:
         m = importlib.import_module(desc["main"])
         router = desc["entry"] == "router"
@@ -98,15 +134,17 @@ def check_tree(pt, acc, desc, directory, off_teal, rng):
             # one program object for both compilations: module-level subroutines cache their slots, so a second program()
             # would be a different program as far as slot numbering goes (that is C11's territory, not the source map's)
             prog = m.program()
-            plain = pt.Compilation(prog, pt.Mode.Application, version=desc["version"]).compile().teal
-            res = pt.Compilation(prog, pt.Mode.Application, version=desc["version"]).compile(with_sourcemap=True, teal_filename="gen.teal", **opts)
+            asm = bool(desc.get("assemble"))
+            plain = pt.Compilation(prog, pt.Mode.Application, version=desc["version"], assemble_constants=asm).compile().teal
+            res = pt.Compilation(prog, pt.Mode.Application, version=desc["version"], assemble_constants=asm).compile(with_sourcemap=True, teal_filename="gen.teal", **opts)
             mapped_teal, sm = res.teal, res.sourcemap
             maps = [(mapped_teal, sm)]
         else:
             router_obj = m.router()
-            ap, cl, _ = router_obj.compile_program(version=desc["version"])
+            asm = bool(desc.get("assemble"))
+            ap, cl, _ = router_obj.compile_program(version=desc["version"], assemble_constants=asm)
             plain = ap + "\n=====\n" + cl
-            rr = router_obj.compile(version=desc["version"], with_sourcemaps=True, approval_filename="a.teal", clear_filename="c.teal", **opts)
+            rr = router_obj.compile(version=desc["version"], assemble_constants=asm, with_sourcemaps=True, approval_filename="a.teal", clear_filename="c.teal", **opts)
             mapped_teal = rr.approval_teal + "\n=====\n" + rr.clear_teal
             maps = [(rr.approval_teal, rr.approval_sourcemap), (rr.clear_teal, rr.clear_sourcemap)]
             acc.counters["router_trees"] += 1
@@ -168,19 +206,15 @@ def check_tree(pt, acc, desc, directory, off_teal, rng):
             acc.violation("map_entry", case, bad)
             continue
         acc.counters["entries_point_into_files"] += 1
-        # markers
+        # markers: every constant-load site (pseudo-op, push op or constant-block load) with the value it pushes
         nmark = 0
-        for li, line in enumerate(lines):
-            toks = G.tokenize(line)
-            mk = None
-            if len(toks) == 2 and toks[0] == "int" and toks[1].isdigit():
-                mk = smgen.marker_of_int(int(toks[1]))
-            elif len(toks) >= 2 and toks[0] == "byte":
-                try:
-                    b, _ = G.parse_bytes_args(toks[1:])
-                    mk = smgen.marker_of_bytes(b)
-                except G.ParseError:
-                    mk = None
+        sites = constant_sites(teal)
+        rep_seen = {}
+        for li, value in sites:
+            line = lines[li]
+            mk = smgen.marker_of_int(value) if isinstance(value, int) else smgen.marker_of_bytes(value)
+            if isinstance(value, int) and str(value) in desc.get("repeats", {}):
+                rep_seen.setdefault(str(value), []).append(r3.entries[(li, 0)].source_line + 1)
             if mk is None:
                 continue
             fidx, srcline = mk
@@ -196,6 +230,16 @@ def check_tree(pt, acc, desc, directory, off_teal, rng):
         else:
             if nmark:
                 acc.counters["markers_attributed"] += nmark
+            if desc.get("assemble"):
+                acc.counters["assembled_trees"] += 1
+            for val, want in desc.get("repeats", {}).items():
+                got_lines = rep_seen.get(val, [])
+                if got_lines and sm is maps[0][1]:
+                    acc.counters["repeated_constants_checked"] += 1
+                    if got_lines != [l for _, l in want]:
+                        acc.violation("repeated_constant_misattributed", case, "value %s was written on lines %r (in program order) but its %d load sites are attributed to lines %r"
+                                      % (val, [l for _, l in want], len(got_lines), got_lines))
+                        break
         # JSON encoding: independent decoder and from_json
         j = r3.to_json()
         dec = decode_mappings(j)
@@ -289,7 +333,7 @@ def run_shard(shard):
             descs = [smgen.generate(rng, d, "%d_%d" % (shard["shard"], i)) for i in range(shard["n"])]
         # gate-off process
         cases_p, out_p = os.path.join(d, "cases.json"), os.path.join(d, "off.json")
-        json.dump([{k: x[k] for k in ("main", "entry", "version")} for x in descs], open(cases_p, "w"))
+        json.dump([{k: x.get(k) for k in ("main", "entry", "version", "assemble")} for x in descs], open(cases_p, "w"))
         env = pool.worker_env()
         cp = subprocess.run([pool.PY, "-m", "vlib.c15off", d, cases_p, out_p], cwd=pool.VERIF, env=env, timeout=600, stdout=subprocess.PIPE, stderr=subprocess.PIPE, text=True)
         off = json.load(open(out_p)) if os.path.exists(out_p) else {}
